@@ -27,6 +27,7 @@ import (
 	"fmt"
 	"math/rand"
 	"strings"
+	"sync/atomic"
 	"time"
 
 	"github.com/ethereum/go-ethereum/beacon/light"
@@ -737,7 +738,20 @@ func (e *env) opForgedCheckpoint() {
 func (e *env) opReload() {
 	e.op("reload")
 	ob := e.last
-	e.chain = light.NewTestCommitteeChain(e.db, &e.cfg, e.thr, e.enforce, e.clock)
+	// The constructor re-validates the stored chain in a loop; a broken rollback makes that
+	// loop spin forever. Waiting is bounded only to abandon the case (inconclusive), never
+	// to decide a verdict.
+	done := make(chan *light.CommitteeChain, 1)
+	go func() { done <- light.NewTestCommitteeChain(e.db, &e.cfg, e.thr, e.enforce, e.clock) }()
+	select {
+	case c := <-done:
+		e.chain = c
+	case <-time.After(90 * time.Second):
+		e.bad = true
+		abandon.Store(true)
+		e.r.Inconclusive("sequence %d: NewTestCommitteeChain over the existing database did not return within 90 s (ops: %v)", e.idx, e.ops)
+		return
+	}
 	e.r.Count("op_reload", 1)
 	oa := e.observe()
 	if !e.bad && oa != ob {
@@ -771,7 +785,14 @@ func (e *env) opClock() {
 	e.sig("clock")
 }
 
+// abandon is set when a case had to be given up (hang in the code under test): no new
+// sequences are started, the run ends inconclusive unless violations were recorded.
+var abandon atomic.Bool
+
 func one(r *vrt.Run, i int) {
+	if abandon.Load() {
+		return
+	}
 	rng := r.Rand("seq", i)
 	e := &env{r: r, idx: i, rng: rng, flags: map[string]bool{}}
 	e.P = 3 + rng.Intn(8)
@@ -808,7 +829,7 @@ func one(r *vrt.Run, i int) {
 	e.probeMask = bitmask(rng, 1+rng.Intn(512))
 	e.ops = append(e.ops, "new chain")
 	e.observe()
-	for s := 0; s < steps && !e.bad; s++ {
+	for s := 0; s < steps && !e.bad && !abandon.Load(); s++ {
 		k := rng.Intn(100)
 		_, init := e.m.nextSyncPeriod()
 		switch {
